@@ -17,6 +17,7 @@ pub mod c12;
 pub mod c13;
 pub mod c14;
 pub mod c18;
+pub mod c19;
 pub mod stream_model;
 
 use crate::engine::{CheckResult, Ctx, Fail, Report};
@@ -196,6 +197,20 @@ pub fn all() -> Vec<PropDef> {
             ],
             run: c18::run,
             replay: c18::replay,
+            child: None,
+        },
+        PropDef {
+            id: "C19",
+            level: "fault_enumeration",
+            rule: c19::RULE,
+            assumptions: &[
+                "attempts are counted by the verif-hooks probe at the start of each attempt (so refused connections are counted too); the fake node's state is switched from inside that probe, which runs on the calling thread",
+                "whether a malformed reply is retried is not asserted (the statement is silent); it counts toward the attempt bound",
+                "it is not asserted that every transport failure is retried, only that retries happen only after transport failures, are bounded, and that the node is never wedged",
+                "node timeout 80 ms, retry delay 1 ms",
+            ],
+            run: c19::run,
+            replay: c19::replay,
             child: None,
         },
     ]
